@@ -285,6 +285,16 @@ BEGIN
     WHERE node IN (SELECT sink FROM dependency WHERE source = NEW.i);
 END;
 
+-- A deferred step waits for a change of one of its inputs (see Workflow.mark_step_pending).
+-- A detached input that is revived by a full recycle comes back with its state intact,
+-- so nothing changes: the re-attachment itself must make the deferred consumers eligible again.
+CREATE TRIGGER IF NOT EXISTS step_node_undefer_reattached AFTER UPDATE OF detached ON node
+WHEN OLD.detached AND NOT NEW.detached
+BEGIN
+    UPDATE step SET deferred = FALSE
+    WHERE deferred AND node IN (SELECT sink FROM dependency WHERE source = NEW.i);
+END;
+
 -- Keep _check_after in sync with duration changes, so the scheduler recomputes
 -- _implied_need/_tail_time for this step (and, via propagation, its sources).
 CREATE TRIGGER IF NOT EXISTS step_flag_check_after_duration AFTER UPDATE OF duration ON step
@@ -982,6 +992,29 @@ class Step(Node):
             JOIN file ON file.node = dependency.source
             WHERE dependency.sink = ?
             AND file.state NOT IN ({FileState.CONFIRMED.value}, {FileState.BUILT.value})
+        )
+        """
+        return bool(self.db.execute(sql, (self.i,)).fetchone()[0])
+
+    def has_unusable_dynamic_input(self) -> bool:
+        """Determine if any dynamic input is detached or not currently `CONFIRMED` or `BUILT`.
+
+        Unlike `has_unavailable_dynamic_input`, this also counts a detached input,
+        whatever its state, which makes it the exact opposite of
+        the `dynamic_inputs_ready` test in `Scheduler._derive_job`:
+        as long as it holds, a step with a stored hash is given a `ValidateDynamicJob`.
+        """
+        sql = f"""
+        SELECT EXISTS (
+            SELECT 1 FROM dependency
+            JOIN dynamic_dep ON dynamic_dep.i = dependency.i
+            JOIN node ON node.i = dependency.source
+            JOIN file ON file.node = dependency.source
+            WHERE dependency.sink = ?
+            AND (
+                node.detached OR
+                file.state NOT IN ({FileState.CONFIRMED.value}, {FileState.BUILT.value})
+            )
         )
         """
         return bool(self.db.execute(sql, (self.i,)).fetchone()[0])
